@@ -75,6 +75,13 @@ def handle (op : String) : Option Handler :=
       | .ok st =>
         pure (Json.mkObj [("nodes", Json.arr (st.nodes.map (nodeJson idp st.nodes)).toArray),
                           ("warnings", Json.arr (st.warnings.map errJson).toArray)])
+  | "c13.dump_merge" => some fun j => do
+      let prev ← (← (← j.getObjVal? "prev").getArr?).toList.mapM (fun m => do
+        pure (⟨← strOf m "name", ← intOf m "value", ← strOf m "cident"⟩ : Member))
+      let ds ← (← (← j.getObjVal? "dump").getArr?).toList.mapM (fun m => do
+        pure (⟨← strOf m "name", ← strOf m "nick", ← intOf m "value"⟩ : DumpMember))
+      pure (Json.arr ((mergeDump prev ds).map (fun m =>
+        Json.arr #[jstr m.name, jstr (decimal m.value), jstr m.cident])).toArray)
   | _ => none
 
 end Driver.C13
